@@ -37,8 +37,8 @@ CLAIMS["C17"] = {
 CLAIMS["C24"] = {
     "engine": "sql-smt",
     "technique": "SQL statements extracted from the store functions, translated to SMT-LIB2 transition relations over an arbitrary pre-state row; negated model properties decided by z3 and cvc5 (diffed); models replayed on real sqlite",
-    "text": "For each of 14 store statements (routing add/remove/prune, sync status, cached refs set/delete, follow/seed policies, announcements store/prune) the solvers show unsat for the negation of its simple-model property over EVERY pre-state row and EVERY parameter value in the i64 range: timestamps only increase, prune spares the ignored node and newer entries, values move only to strictly newer + different, policies reflect the last write, announcements are replaced only by strictly newer ones and a row id is returned exactly then. One-step induction over a table viewed as key -> optional row covers operation sequences of any length.",
-    "note": "Trusted: sqlite's semantics for the UPSERT/DELETE/UPDATE subset as encoded (validated each run against real sqlite 3.40 on 336 boundary vectors and on every solver model); the Rust glue that binds parameters and maps results is outside; columns are non-NULL.",
+    "text": "For each of 17 store statements (routing add/remove/prune, sync status, cached refs set/delete, follow/seed/unblock policies, announcements store/prune) the solvers show unsat for the negation of its simple-model property over EVERY pre-state row and EVERY parameter value in the i64 range: timestamps only increase, prune spares the ignored node and newer entries, values move only to strictly newer + different, policies reflect the last write, announcements are replaced only by strictly newer ones and a row id is returned exactly then. One-step induction over a table viewed as key -> optional row covers operation sequences of any length.",
+    "note": "Trusted: sqlite's semantics for the UPSERT/DELETE/UPDATE subset as encoded (validated each run against real sqlite 3.40 on ~400 boundary vectors and on every solver model); the Rust glue that binds parameters and maps results is outside; columns are non-NULL.",
 }
 
 CLAIMS["C27"] = {
